@@ -14,6 +14,11 @@ PM = 4096                     # host PATH_MAX (POSIX limits.h on Linux), restate
 NSNAME = {0: 'wasi_snapshot_preview1', 1: 'wasi_unstable'}
 E1_CALLS = ['create_directory', 'remove_directory', 'unlink_file', 'filestat_get', 'open', 'readlink', 'symlink', 'rename_old', 'rename_new']
 E2_NAMES = ['a', 'b', 'd', 'd/a', 'missing/x', '<absolute path of a>', '<256-byte component>', 'a (relative to opened d)', 'n (relative to opened d)', 'a/', 'b/']
+# content classes for single operations (histories of length 1 that are not extended)
+E2_WIDE = ['./a', 'd/../a', 'd//a', 'd/./a', 'a/.', 'd/.', 'd/..', '.', '..', '/', 'd/', 'd//', 'a b', '-x', 'a\\b', '*', '\xc3\xa9', '\xff\xfe', '%s%n', 'd/a/', './', 'd/../d/a',
+           '../a (relative to opened d)', '. (relative to opened d)', './a (relative to opened d)']
+E2_CORE = len(E2_NAMES)
+E2_NAMES = E2_NAMES + E2_WIDE
 E2_OPS = {'md': 'path_create_directory', 'rd': 'path_remove_directory', 'ul': 'path_unlink_file', 'rn': 'path_rename', 'sl': 'path_symlink',
           'rl': 'path_readlink', 'fs': 'path_filestat_get', 'op': 'path_open'}
 RL_MODES = {0: '0', 1: '1', 2: 'exact', 3: 'exact+1'}
@@ -76,7 +81,7 @@ def run_e1(ex):
 
 # ------------------------------------------------------------------------------------------------ E2
 def e2_alphabet(info, depth):
-    names = range(len(E2_NAMES))
+    names = range(E2_CORE)
     ops = []
     for n in names:
         ops += ['md,%d,0' % n, 'rd,%d,0' % n, 'ul,%d,0' % n, 'fs,%d,0' % n, 'fs,%d,1' % n]
@@ -84,6 +89,13 @@ def e2_alphabet(info, depth):
         ops += ['op,%d,%d,0' % (n, o) for o in OFL]
         ops += ['rn,%d,%d,0' % (n, m) for m in names if m != n]
         ops += ['sl,%d,%d,0' % (t, n) for t in (0, 1, 2, 4, 5)]
+    if depth == 1:
+        # every operation once with every name of the wide alphabet on the initial tree (rename: wide x core and core x wide)
+        for n in range(E2_CORE, len(E2_NAMES)):
+            ops += ['md,%d,0' % n, 'rd,%d,0' % n, 'ul,%d,0' % n, 'fs,%d,0' % n, 'fs,%d,1' % n, 'rl,%d,3,0' % n]
+            ops += ['op,%d,%d,0' % (n, o) for o in OFL]
+            ops += ['rn,%d,%d,0' % (n, m) for m in (0, 1, 2)] + ['rn,%d,%d,0' % (m, n) for m in (0, 2)]
+            ops += ['sl,%d,%d,0' % (0, n), 'sl,%d,%d,0' % (n, 1)]
     return ops
 
 
@@ -125,6 +137,8 @@ def make_e2_judge(ex):
                     seen.add(key)
                     ex.report(key, line, r, '%s differs from the POSIX twin at step %d (%s): %s — history: %s' % (what, stepno, e2_describe_op(op), rest, e2_describe(line)), e2_describe)
             return None, None
+        if any(int(f[1]) >= E2_CORE or (f[0] in ('rn', 'sl') and int(f[2]) >= E2_CORE) for f in (op.split(',') for op in ops)):
+            return None, None           # single operations with the wide name alphabet are checked, not extended
         return 'E2:' + r['state'], True
     return judge
 
